@@ -99,7 +99,7 @@ func (area) Requires() string {
 }
 func (area) Check() string { return "check_case" }
 func (area) Rule() string {
-	return "histories of 10-40 BuildClient.Run iterations (quick) interleaved with executor steps (progress update / finish) between Runs, during Run's select and during the Synchronize RPC; shutdown begins between two Runs or in the middle of a Run (scripted for 55% of the shutdowns, effective for about 40%: context cancelled inside CheckReadiness / inside the select on timer and updates / whichever comes first, scripted on up to 3 consecutive Runs and followed by a between-Runs shutdown so that it always begins; the case term records whether the cancellation really happened before Synchronize was called); scheduler replies execute(digest 0..3)/idle/no-change/RPC error/invalid timestamp/invalid execute request/unknown desired state; readiness failures 12%; clock advancing 0-30 s per Run with jumps past the one-minute grace and backwards; bursts of 9-13 updates to fill the 10-slot channel; shutdown near the end in 70% of histories; 35% of histories end with an accepted idle reply, a delivered-but-locally-rejected reply (invalid timestamp / unknown desired state / invalid execute request), then shutdown (60%) and 1-3 further iterations; non-trivial = at least one executor started, one executor stopped or completed, one failing reply or readiness failure; distinct by hash of the case term"
+	return "histories of 10-40 BuildClient.Run iterations (quick) interleaved with executor steps (progress update / finish) between Runs, during Run's select and during the Synchronize RPC; shutdown begins between two Runs or in the middle of a Run (scripted for 55% of the shutdowns, effective for about 40%: context cancelled inside CheckReadiness / inside the select on timer and updates / whichever comes first, scripted on up to 3 consecutive Runs and followed by a between-Runs shutdown so that it always begins; the case term records whether the cancellation really happened before Synchronize was called); scheduler replies execute(digest 0..3)/idle/no-change/RPC error/invalid timestamp/invalid execute request/unknown desired state; readiness failures 12%; clock advancing 0-30 s per Run with jumps past the one-minute grace and backwards; bursts of 9-13 updates to fill the 10-slot channel; in 12% of the gaps between Runs 1-3 progress updates followed by finish (Completed and close of the channel), so that the next Run finds updates, the Completed and the close queued at once; shutdown near the end in 70% of histories; 35% of histories end with an accepted idle reply, a delivered-but-locally-rejected reply (invalid timestamp / unknown desired state / invalid execute request), then shutdown (60%) and 1-3 further iterations; non-trivial = at least one executor started, one executor stopped or completed, one failing reply or readiness failure; distinct by hash of the case term"
 }
 
 // ---- generator ----------------------------------------------------------------
@@ -142,7 +142,15 @@ func (area) Generate(r *rng.R, thorough bool, index int) json.RawMessage {
 			for j, n := 0, 9+r.Intn(5); j < n; j++ {
 				h.Ops = append(h.Ops, op{K: "upd", N: uint64(r.Intn(3))})
 			}
-		case x < 45:
+		case x < 20:
+			// The action finishes between two Runs: progress update(s), the
+			// Completed and the close of the channel are all queued when the
+			// next Run reaches its select.
+			for j, n := 0, 1+r.Intn(3); j < n; j++ {
+				h.Ops = append(h.Ops, op{K: "upd", N: uint64(r.Intn(3))})
+			}
+			h.Ops = append(h.Ops, op{K: "fin", Ok: r.Chance(55), Tag: uint64(1 + r.Intn(50))})
+		case x < 50:
 			for j, n := 0, 1+r.Intn(3); j < n; j++ {
 				e := genX(r)
 				h.Ops = append(h.Ops, op{K: e.K, N: e.N, Ok: e.Ok, Tag: e.Tag})
@@ -338,6 +346,7 @@ type world struct {
 	ctx            context.Context // the context handed to Run
 	cancelCtx      context.CancelFunc
 	lateDone       bool        // the context was cancelled during this Run, before Synchronize was called
+	afterClose     string      // the executor's channel was closed before this Run began: what was still queued
 	latePos        string      // where
 	anomaly        atomic.Bool // something timed out or overlapped: stop after this item
 	selDone        []string    // executor steps performed during select (Gallina terms)
@@ -698,6 +707,9 @@ func (w *world) Synchronize(ctx context.Context, in *remoteworker.SynchronizeReq
 	}
 	w.log(g.App("OSync", st, g.Bool(in.PreferBeingIdle), g.Bool(ctx.Err() == nil)))
 	w.synced = true
+	if w.afterClose != "" {
+		w.info.Outs["run-after-close-"+w.afterClose+"-sync-"+kind]++
+	}
 	if w.lateDone {
 		w.info.Outs["late-cancel-then-sync-"+kind]++
 		if !in.PreferBeingIdle {
@@ -865,6 +877,23 @@ func (area) Execute(raw json.RawMessage) (string, *hcommon.Info, error) {
 			w.setRun(o)
 			w.selDone, w.syncDone, w.synced = nil, nil, false
 			w.lateDone, w.latePos = false, ""
+			// Did the action finish (Completed sent, channel closed) before this
+			// Run, while the client still holds its slot?  What is queued then?
+			w.afterClose = ""
+			w.mu.Lock()
+			ce := w.cur
+			w.mu.Unlock()
+			if ce != nil && bc.VerifState().HasExecution && ce.hasReturned() && gstate(ce.gid) == "" {
+				switch n := len(ce.updates); {
+				case n >= 2:
+					w.afterClose = "updates-and-completion-queued"
+				case n == 1:
+					w.afterClose = "completion-queued"
+				default:
+					w.afterClose = "drained"
+				}
+				info.Outs["run-after-close-"+w.afterClose]++
+			}
 			if o.Late != "" {
 				info.Outs["late-scripted-"+o.Late]++
 			}
